@@ -1,5 +1,7 @@
 """Shared helpers for the assembler-level checks: run a program through the implementation and
-through the extracted model (tokens produced by the implementation's own lexer), compare."""
+through the extracted model, compare.  run_full lexes with the extracted lexer model (Lexer.lex_all), so
+the full pipeline model starts from the files' bytes; run_both (single-file, token-level Asm model) still takes
+the implementation's tokens."""
 import os, re
 from common import *
 import gen_tables
@@ -113,6 +115,79 @@ def census(arch):
 
 NUMRE = re.compile(r"\$[0-9a-fA-F]+|(?<![\w$])\d+\b")
 
+# ---------------------------------------------------------------- the lexer model
+_UCLASS = {}
+def uclass(harness, cps):
+    """which non-ASCII code points the implementation's lexer treats as alphanumeric / whitespace
+    (char::is_alphanumeric / is_whitespace: an oracle of the lexer model)"""
+    need = sorted(c for c in cps if c not in _UCLASS)
+    for i in range(0, len(need), 400):
+        part = need[i:i + 400]
+        r = run_cases(harness, ["uclass\t" + ",".join("%x" % c for c in part)], shards=1)[0]
+        f = (r.split("\t") + ["", ""])[:2]
+        al = {int(x, 16) for x in f[0].split(",") if x}
+        ws = {int(x, 16) for x in f[1].split(",") if x}
+        for c in part:
+            _UCLASS[c] = (c in al, c in ws)
+    return _UCLASS
+
+def model_lex(harness, model, jobs):
+    """jobs: [(arch, bytes)] -> token lines of the extracted Lexer.lex_all (same format as the harness
+    'lex' mode; errors as E<kind>@line:col; 'UTF8' when the bytes are not UTF-8)"""
+    texts = []
+    cps = set()
+    for arch, data in jobs:
+        try:
+            t = data.decode("utf8")
+        except UnicodeDecodeError:
+            t = None
+        texts.append(t)
+        if t:
+            cps.update(ord(ch) for ch in t if ord(ch) > 127)
+    cl = uclass(harness, cps) if cps else {}
+    lines = []
+    for (arch, data), t in zip(jobs, texts):
+        mine = sorted({ord(ch) for ch in (t or "") if ord(ch) > 127})
+        al = ",".join("%x" % c for c in mine if cl[c][0])
+        ws = ",".join("%x" % c for c in mine if cl[c][1])
+        lines.append("mlex\t%s\t%s\t%s\t%s" % (arch, data.hex(), al, ws))
+    return run_cases(model, lines)
+
+LEXERRS = ["unexpected line break", "unrecognized string escape", "malformed character literal", "malformed binary number",
+           "malformed decimal number", "malformed hexadecimal number", "unrecognized input", "unknown directive", "malformed label"]
+def canon_lex(line):
+    """implementation token line with the error message replaced by its kind number"""
+    out = []
+    for t in line.split(" "):
+        m = re.match(r"^E([0-9a-f]+)(@\d+:\d+)$", t)
+        if m and len(m.group(1)) > 2:
+            msg = bytes.fromhex(m.group(1)).decode("utf8", "replace")
+            k = next((i for i, e in enumerate(LEXERRS) if msg.startswith(e)), None)
+            t = ("E%d" % k if k is not None else "Eread") + m.group(2)
+        out.append(t)
+    return " ".join(out)
+
+def lex_k(ck, harness, model, jobs, limit=2):
+    """correspondence of the lexer model: token kinds, payloads and locations"""
+    impl = run_cases(harness, ["lex\t%s\t%s\t" % (a, d.hex()) for a, d in jobs])
+    mod = model_lex(harness, model, jobs)
+    bad = 0
+    for (arch, data), i, m in zip(jobs, impl, mod):
+        ci = canon_lex(i)
+        if m == "UTF8":
+            if "Eread@" in ci:
+                continue
+        if ci != m:
+            bad += 1
+            if bad <= limit:
+                ti, tm = ci.split(" "), m.split(" ")
+                k = next((j for j in range(min(len(ti), len(tm))) if ti[j] != tm[j]), min(len(ti), len(tm)))
+                ck.violation("correspondence: lexer model and implementation differ at token %d (%s vs %s) on %s text %r" % (
+                    k, tm[k:k + 2], ti[k:k + 2], arch, data[:200]),
+                    {"correspondence": "Lexer.lex_all vs Lexer::next", "arch": arch, "data_hex": data.hex(),
+                     "harness_case": "lex\t%s\t%s\t" % (arch, data.hex()), "model": m[:600], "implementation": ci[:600]}, no_input=True)
+    return impl, mod, bad
+
 # ---------------------------------------------------------------- the full pipeline model (pump, includes)
 def run_full(harness, model, cases, syms=False):
     """cases: list of dict(arch, files {abs path: str|bytes}, cwd, root, paths [abs]).
@@ -129,7 +204,7 @@ def run_full(harness, model, cases, syms=False):
                 continue
             data = content.encode("utf8") if isinstance(content, str) else content
             lexjobs.append("lex\t%s\t%s\t" % (c["arch"], data.hex())); where.append((ci, p))
-    lexed = run_cases(harness, lexjobs)
+    lexed = model_lex(harness, model, [(j.split("\t")[1], bytes.fromhex(j.split("\t")[2])) for j in lexjobs])
     toks = {}
     for (ci, p), l in zip(where, lexed):
         toks[(ci, p)] = l
@@ -148,7 +223,7 @@ def run_full(harness, model, cases, syms=False):
                 if t.startswith("S") and t not in seen:
                     seen.add(t)
                     strjobs.append("lex\t%s\t%s\t" % (c["arch"], t[1:])); strkeys.append((ci, t[1:]))
-    strlex = run_cases(harness, strjobs) if strjobs else []
+    strlex = model_lex(harness, model, [(j.split("\t")[1], bytes.fromhex(j.split("\t")[2])) for j in strjobs]) if strjobs else []
     lextab = {}
     for (ci, h), l in zip(strkeys, strlex):
         if not re.search(r"(^| )E[0-9a-f]*@", l):
@@ -166,7 +241,7 @@ def run_full(harness, model, cases, syms=False):
         for p, content in fl:
             data = content.encode("utf8") if isinstance(content, str) else content
             l = toks[(ci, p)]
-            if re.search(r"(^| )E[0-9a-f]*@", l):
+            if l == "UTF8" or re.search(r"(^| )E[0-9a-f]*@", l):
                 l = "!"
             fields += [p, l, data.hex()]
         mlines.append("\t".join(fields))
